@@ -21,7 +21,7 @@ SYMBOLS = ["+", "-", "*", "(", ")", "{", "}", ",", ";", ":", "->", "=", "@"]
 REGEXES = [r"[A-Z][a-z]*", r"[0-9]+", r"\$[a-z]+", r"<[a-z]+>", r"<([a-z]+)>", r"[a-z]+\b", r"0x([0-9a-f]+)"]
 ATTRS = ["a", "b", "c", "d"]
 WS_MODS = [" ", " \\t", "\\n ", " \\t\\n"]
-COMMENT_RULES = {"line": r"/#[^\n]*/", "block": r"/\/\*[^*]*\*\//"}
+COMMENT_RULES = {"line": r"/#[^\n]*/", "block": r"/\/\*[^*]*\*\//", "both": r"/#[^\n]*/ | /\/\*[^*]*\*\//"}
 
 
 def esc_str(lit):
@@ -346,7 +346,22 @@ def abstract_bodies(draw, ctx):
     alts = []
     n = draw(st.integers(1, 3))
     for i in range(n):
-        kind = draw(st.integers(0, 5))
+        kind = draw(st.integers(0, 7))
+        if kind == 6 and nonmatch and i > 0:
+            # an optional / repeated non-match reference in front of another one: Tag? Leaf
+            first = ["ref", draw(st.sampled_from(nonmatch))]
+            first = ["opt", first] if draw(st.booleans()) else ["star", first, None, False]
+            alts.append(["seq", [first, ["ref", draw(st.sampled_from(nonmatch))]]])
+            continue
+        if kind == 7 and i > 0:
+            # terminals only, base types included (their text, not their converted value, is concatenated)
+            xs = [["ref", draw(st.sampled_from(BASE_TYPES))], draw(literals())]
+            if draw(st.booleans()):
+                xs.append(["ref", draw(st.sampled_from(BASE_TYPES))])
+            alts.append(["seq", xs])
+            continue
+        if kind >= 6:
+            kind = draw(st.integers(0, 5))
         if kind <= 2 or not match:
             alts.append(["ref", draw(st.sampled_from(nonmatch if (nonmatch and (i == 0 or kind <= 1)) else (match or nonmatch)))])
         elif kind == 3 and nonmatch:
@@ -424,7 +439,7 @@ def grammars(draw, max_rules=6, modifiers=True, comments=True, eolterm=True, all
             else:
                 mods["skipws"] = False
         rules.append({"name": names[i], "mods": mods, "body": body})
-    comment = draw(st.sampled_from([None, None, "line", "block"])) if comments else None
+    comment = draw(st.sampled_from([None, None, "line", "block", "both"])) if comments else None
     if use_eol and comment is not None and not allow_known:
         # engine finding F-C01d (comment-position cache filled under eolterm): kept out by construction
         comment = None
